@@ -60,6 +60,8 @@ Section Proofs.
   Notation ledger_from := (ledger_from rf itype).
   Notation op_recs := (op_recs rf itype).
   Notation verdict_of := (verdict_of rf itype).
+  Notation calm_from := (calm_from rf itype).
+  Notation calm := (calm rf itype).
 
   (* ---------- history functions ---------- *)
 
@@ -135,9 +137,6 @@ Section Proofs.
   Qed.
 
   (* ---------- closed connections stay closed ---------- *)
-
-  Definition is_closed (cs : alist conn) (c : Z) : bool :=
-    match aget c cs with Some cn => negb (c_open cn) | None => false end.
 
   Lemma aget_aset_dec {V} (k k2 : Z) (v : V) m :
     aget k2 (aset k v m) = if Z.eqb k2 k then Some v else aget k2 m.
@@ -275,7 +274,6 @@ Section Proofs.
 
   (* ---------- the invariant ---------- *)
 
-  Definition outT (s : st) : list Z := map (fun x => snd (fst x)) (out s).
   Definition waitT (l : list freq) : list Z := map f_tag (filter f_wait l).
   Definition fverdict (f : freq) : verdict :=
     VForward (f_i f) (right_type (f_i f) (f_ty f)) (f_m f).
@@ -953,8 +951,6 @@ Section Proofs.
     rewrite firstn_all, skipn_all, app_nil_r. reflexivity.
   Qed.
 
-  Definition settled (ph : phase) : bool := match ph with PSilent | PDone => true | _ => false end.
-
   Lemma hop_hop_settled f : settled (f_phase (hop (hop f))) = true.
   Proof.
     unfold hop. destruct (f_phase f) eqn:PH; simpl; rewrite ?PH; try reflexivity.
@@ -997,5 +993,503 @@ Section Proofs.
   Proof.
     unfold Model.finish, advance. simpl. rewrite !pass_fwd, !map_map. intro H.
     apply in_map_iff in H. destruct H as [g [E G]]. subst f. simpl. split; [apply hop_hop_settled | reflexivity].
+  Qed.
+
+  (* ---------- locating a request in the ledger ---------- *)
+
+  Lemma ledger_from_app a : forall cs b,
+    ledger_from cs (a ++ b) = ledger_from cs a ++ ledger_from (fold_left conn_step a cs) b.
+  Proof.
+    induction a as [|o r IH]; intros cs b; simpl; [reflexivity|].
+    rewrite IH, app_assoc. reflexivity.
+  Qed.
+
+  Lemma ledger_from_tags_sub ops : forall cs t,
+    In t (map r_tag (ledger_from cs ops)) -> In t (tags_of ops).
+  Proof.
+    induction ops as [|o r IH]; intros cs t; simpl; [tauto|].
+    rewrite map_app, !in_app_iff. intros [H|H].
+    - left. apply in_map_iff in H. destruct H as [x [E H]]. subst t. eapply op_recs_tag_in; eauto.
+    - right. eapply IH; eauto.
+  Qed.
+
+  Lemma ledger_split pre o post :
+    ledger (pre ++ o :: post) =
+    ledger pre ++ op_recs (cview pre) o ++ ledger_from (conn_step (cview pre) o) post.
+  Proof. unfold Spec.ledger. rewrite ledger_from_app. reflexivity. Qed.
+
+  Lemma tag_rec ops pre o post tag x :
+    NoDup (tags_of ops) -> ops = pre ++ o :: post -> op_tags o = [tag] ->
+    In x (ledger ops) -> r_tag x = tag -> In x (op_recs (cview pre) o).
+  Proof.
+    intros ND E T X TX. subst ops. rewrite ledger_split, !in_app_iff in X.
+    rewrite tags_of_app in ND. unfold tags_of at 2 in ND. simpl in ND. rewrite T in ND. simpl in ND.
+    assert (N1 := NoDup_remove_2 _ _ _ ND).
+    destruct X as [X|[X|X]]; [|exact X|]; exfalso; apply N1; apply in_app_iff.
+    - left. apply (ledger_from_tags_sub pre []). subst tag. apply in_map. exact X.
+    - right. apply (ledger_from_tags_sub post (conn_step (cview pre) o)). subst tag. apply in_map. exact X.
+  Qed.
+
+  Lemma conn_step_open_keep cs o c :
+    is_open cs c = true -> o <> OClose c -> is_open (conn_step cs o) c = true.
+  Proof.
+    intros O N. destruct o as [d b|d mid rt t|d rt t| |d];
+      try (rewrite conn_step_open_other; [exact O | intros; discriminate | exact N]).
+    simpl. destruct (aget d cs) eqn:G; [exact O|].
+    unfold is_open. rewrite aget_aset_dec. destruct (Z.eqb_spec c d); [reflexivity | exact O].
+  Qed.
+
+  Lemma open_until l : forall cs c,
+    is_open cs c = true -> ~ In (OClose c) l -> is_open (fold_left conn_step l cs) c = true.
+  Proof.
+    induction l as [|o r IH]; intros cs c O N; simpl; [exact O|].
+    apply IH; [|simpl in N; tauto]. apply conn_step_open_keep; [exact O|]. simpl in N. intro E. apply N. left. exact E.
+  Qed.
+
+  Lemma filter_unique {A} (g : A -> Z) l x :
+    NoDup (map g l) -> In x l -> filter (fun y => Z.eqb (g y) (g x)) l = [x].
+  Proof.
+    induction l as [|a r IH]; simpl; intros N H; [tauto|]. inv N.
+    destruct H as [H|H].
+    - subst a. rewrite Z.eqb_refl. f_equal.
+      clear IH H3. induction r as [|b r IH]; simpl; [reflexivity|].
+      destruct (Z.eqb_spec (g b) (g x)).
+      + exfalso. apply H2. simpl. left. exact e.
+      + apply IH. intro I. apply H2. simpl. right. exact I.
+    - destruct (Z.eqb_spec (g a) (g x)).
+      + exfalso. apply H2. rewrite e. apply in_map. exact H.
+      + apply IH; assumption.
+  Qed.
+
+  Lemma waitT_nil l : (forall f, In f l -> f_wait f = false) -> waitT l = [].
+  Proof.
+    unfold waitT. induction l as [|f r IH]; simpl; intro H; [reflexivity|].
+    rewrite (H f (or_introl eq_refl)). apply IH. intros g G. apply H. right. exact G.
+  Qed.
+
+  (* ---------- the theorems ---------- *)
+
+  Definition accepted (pre : list op) (c : Z) : Prop := is_open (cview pre) c = true.
+
+  Theorem one_response evs pre post c mid r tag :
+    NoDup (tags_of (ops_of evs)) ->
+    ops_of evs = pre ++ OReq c mid r tag :: post ->
+    mid <> 0 -> accepted pre c -> ~ In (OClose c) post ->
+    expected (verdict_of (key_of (cview pre) c) r) tag <> None ->
+    exists e p,
+      filter (fun x => Z.eqb (snd (fst x)) tag) (out (finish (run evs))) = [(c, tag, Resp mid e p)] /\
+      allowed (verdict_of (key_of (cview pre) c) r) tag e p.
+  Proof.
+    intros ND E M A NC X.
+    set (v := verdict_of (key_of (cview pre) c) r) in *.
+    set (ops' := ops_of evs ++ [OAdvance]).
+    assert (ND' : NoDup (tags_of ops')) by (unfold ops'; rewrite tags_of_advance; exact ND).
+    assert (E' : ops' = pre ++ OReq c mid r tag :: (post ++ [OAdvance])).
+    { unfold ops'. rewrite E, <- app_assoc. reflexivity. }
+    assert (I := inv_finish evs ND). fold ops' in I.
+    assert (R0 : In (mkRec c mid tag v) (ledger ops')).
+    { rewrite E', ledger_split, !in_app_iff. right. left. simpl. unfold accepted in A. rewrite A. left. reflexivity. }
+    destruct (inv_prog _ _ I _ R0 M X) as [H|[H|H]].
+    - unfold outT in H. apply in_map_iff in H. destruct H as [[[c1 t1] [m e p]] [T H]]. simpl in T. subst t1.
+      destruct (inv_out _ _ I _ _ _ _ _ H) as [_ [v1 [R1 AL]]].
+      assert (R1' := tag_rec ops' pre _ _ tag _ ND' E' eq_refl R1 eq_refl).
+      simpl in R1'. unfold accepted in A. rewrite A in R1'. destruct R1' as [R1'|[]]. inv R1'.
+      exists e, p. split; [|exact AL].
+      apply (filter_unique (fun x : Z * Z * resp => snd (fst x)) _ (c1, tag, Resp m e p)); [|exact H].
+      apply (NoDup_app_l _ _ (inv_uniq _ _ I)).
+    - exfalso. rewrite waitT_nil in H; [exact H|]. intros f F. apply (finish_settled _ f F).
+    - exfalso. simpl in H. unfold ops' in H. rewrite E in H.
+      unfold cview in H. rewrite <- app_assoc, fold_left_app in H. fold (cview pre) in H.
+      rewrite open_until in H; [discriminate | exact A|].
+      simpl. intro I1. destruct I1 as [I1|I1]; [discriminate|].
+      apply in_app_iff in I1. destruct I1 as [I1|[I1|[]]]; [exact (NC I1) | discriminate].
+  Qed.
+
+  Theorem response_source evs pre post c mid r tag c1 m e p :
+    NoDup (tags_of (ops_of evs)) ->
+    ops_of evs = pre ++ OReq c mid r tag :: post ->
+    In (c1, tag, Resp m e p) (out (run evs)) ->
+    accepted pre c /\ c1 = c /\ m = mid /\ mid <> 0 /\
+    allowed (verdict_of (key_of (cview pre) c) r) tag e p.
+  Proof.
+    intros ND E H. assert (I := inv_run evs ND).
+    destruct (inv_out _ _ I _ _ _ _ _ H) as [NZ [v1 [R1 AL]]].
+    assert (R1' := tag_rec _ pre _ _ tag _ ND E eq_refl R1 eq_refl).
+    simpl in R1'. unfold accepted. destruct (is_open (cview pre) c); [|simpl in R1'; tauto].
+    destruct R1' as [R1'|[]]. inv R1'. auto.
+  Qed.
+
+  Theorem at_most_one evs : NoDup (tags_of (ops_of evs)) -> NoDup (outT (run evs)).
+  Proof. intro ND. apply (NoDup_app_l _ _ (inv_uniq _ _ (inv_run evs ND))). Qed.
+
+  Theorem never_id_zero evs c t m e p :
+    NoDup (tags_of (ops_of evs)) -> In (c, t, Resp m e p) (out (run evs)) -> m <> 0.
+  Proof. intros ND H. apply (inv_out _ _ (inv_run evs ND) _ _ _ _ _ H). Qed.
+
+  Theorem notify_unanswered evs pre post c r tag :
+    NoDup (tags_of (ops_of evs)) ->
+    ops_of evs = pre ++ ONotify c r tag :: post ->
+    ~ In tag (outT (run evs)).
+  Proof.
+    intros ND E H. assert (I := inv_run evs ND).
+    unfold outT in H. apply in_map_iff in H. destruct H as [[[c1 t1] [m e p]] [T H]]. simpl in T. subst t1.
+    destruct (inv_out _ _ I _ _ _ _ _ H) as [NZ [v1 [R1 _]]].
+    assert (R1' := tag_rec _ pre _ _ tag _ ND E eq_refl R1 eq_refl).
+    simpl in R1'. destruct (is_open (cview pre) c); [|simpl in R1'; tauto].
+    destruct R1' as [R1'|[]]. inv R1'. apply NZ. reflexivity.
+  Qed.
+
+  Lemma filter_tag_one (l : list (Z * Z)) i t :
+    nlog i t l = 1%nat -> (forall j, In (j, t) l -> j = i) ->
+    filter (fun x => Z.eqb (snd x) t) l = [(i, t)].
+  Proof.
+    unfold nlog. induction l as [|[a b] r IH]; simpl; intros N H; [discriminate|].
+    destruct (Z.eqb_spec b t).
+    - subst b. assert (a = i) by (apply H; left; reflexivity). subst a.
+      rewrite Z.eqb_refl in N. simpl in N. f_equal.
+      assert (Z0 : length (filter (fun x : Z * Z => Z.eqb (fst x) i && Z.eqb (snd x) t) r) = 0%nat) by lia.
+      clear IH N. induction r as [|[a b] r IH]; simpl in *; [reflexivity|].
+      destruct (Z.eqb_spec b t).
+      + subst b. assert (a = i) by (apply H; right; left; reflexivity). subst a.
+        rewrite Z.eqb_refl in Z0. simpl in Z0. discriminate.
+      + rewrite andb_false_r in Z0. apply IH; [|exact Z0]. intros j [J|J]; [apply H; left; exact J | apply H; right; right; exact J].
+    - rewrite andb_false_r in N. apply IH; [exact N|]. intros j J. apply H. right. exact J.
+  Qed.
+
+  Lemma filter_tag_none (l : list (Z * Z)) t :
+    (forall j, ~ In (j, t) l) -> filter (fun x => Z.eqb (snd x) t) l = [].
+  Proof.
+    induction l as [|[a b] r IH]; simpl; intro H; [reflexivity|].
+    destruct (Z.eqb_spec b t); [subst; exfalso; apply (H a); left; reflexivity|].
+    apply IH. intros j J. apply (H j). right. exact J.
+  Qed.
+
+  Lemma ntoback_settled t l : (forall f, In f l -> settled (f_phase f) = true) -> ntoback t l = 0%nat.
+  Proof.
+    unfold ntoback. induction l as [|f r IH]; simpl; intro H; [reflexivity|].
+    assert (S := H f (or_introl eq_refl)). destruct (f_phase f); try discriminate;
+      simpl; rewrite andb_false_r; apply IH; intros g G; apply H; right; exact G.
+  Qed.
+
+  Theorem handler_once evs pre post o c mid r tag :
+    NoDup (tags_of (ops_of evs)) ->
+    ops_of evs = pre ++ o :: post ->
+    (o = OReq c mid r tag \/ (o = ONotify c r tag /\ mid = 0)) ->
+    accepted pre c ->
+    filter (fun x => Z.eqb (snd x) tag) (hlog (finish (run evs))) =
+    match handler_inst (verdict_of (key_of (cview pre) c) r) (negb (Z.eqb mid 0)) with
+    | Some i => [(i, tag)]
+    | None => []
+    end.
+  Proof.
+    intros ND E EO A.
+    set (v := verdict_of (key_of (cview pre) c) r) in *.
+    set (ops' := ops_of evs ++ [OAdvance]).
+    assert (E' : ops' = pre ++ o :: (post ++ [OAdvance])).
+    { unfold ops'. rewrite E, <- app_assoc. reflexivity. }
+    assert (I := inv_finish evs ND). fold ops' in I.
+    assert (R0 : In (mkRec c mid tag v) (ledger ops')).
+    { rewrite E', ledger_split, !in_app_iff. right. left. unfold accepted in A.
+      destruct EO as [EO|[EO Z0]]; subst o; simpl; rewrite A; left; [|subst mid]; reflexivity. }
+    assert (LO := inv_log _ _ I _ R0). unfold log_ok, isreq in LO. cbn [r_tag r_mid r_v] in LO.
+    rewrite ntoback_settled in LO; [|intros f F; apply (finish_settled _ f F)].
+    destruct (handler_inst v (negb (Z.eqb mid 0))) as [i|].
+    - destruct LO as [LO1 LO2]. apply filter_tag_one; [lia | exact LO2].
+    - apply filter_tag_none. exact LO.
+  Qed.
+
+  Lemma unservable_expected v tag : unservable v -> expected v tag = Some (true, PNone).
+  Proof.
+    destruct v as [m| |i rt m]; simpl; [intro H; rewrite H; reflexivity | reflexivity|].
+    intros [H|H]; [subst rt; reflexivity|].
+    destruct rt; [|reflexivity]. destruct (completes m); [contradiction | reflexivity | reflexivity].
+  Qed.
+
+  Theorem errors_answered evs pre post c mid r tag :
+    NoDup (tags_of (ops_of evs)) ->
+    ops_of evs = pre ++ OReq c mid r tag :: post ->
+    mid <> 0 -> accepted pre c -> ~ In (OClose c) post ->
+    unservable (verdict_of (key_of (cview pre) c) r) ->
+    filter (fun x => Z.eqb (snd (fst x)) tag) (out (finish (run evs))) = [(c, tag, Resp mid true PNone)].
+  Proof.
+    intros ND E M A NC U. assert (X := unservable_expected _ tag U).
+    destruct (one_response evs pre post c mid r tag ND E M A NC) as [e [p [F AL]]]; [rewrite X; discriminate|].
+    rewrite F. destruct AL as [AL|[i [rt [m [_ [E1 E2]]]]]]; [rewrite X in AL; inv AL; reflexivity | subst; reflexivity].
+  Qed.
+
+  (* ---------- exact content when time-outs are only crossed at quiescence ---------- *)
+
+  Definition exact_out (ops : list op) (s : st) : Prop :=
+    forall c t m e p, In (c, t, Resp m e p) (out s) ->
+    exists v, In (mkRec c m t v) (ledger ops) /\ expected v t = Some (e, p).
+
+  Lemma calm_from_snoc evs : forall s e,
+    calm_from s (evs ++ [e]) =
+    calm_from s evs && match e with EOp OAdvance => quiet (run_from s evs) | _ => true end.
+  Proof.
+    induction evs as [|a r IH]; intros s e; simpl.
+    - rewrite andb_true_r. reflexivity.
+    - rewrite IH, andb_assoc. reflexivity.
+  Qed.
+
+  Lemma deliver_out ops s k x :
+    Inv ops s -> In x (out (deliver s k)) ->
+    In x (out s) \/
+    exists f e p, In f (fwd s) /\ f_wait f = true /\ f_phase f = PToFront (f_c f) (f_mid f) e p /\
+                  x = (f_c f, f_tag f, Resp (f_mid f) e (if e then PNone else p)).
+  Proof.
+    intros I H. unfold Model.deliver in H.
+    destruct (nth_error (fwd s) k) as [f|] eqn:N; [|left; exact H].
+    assert (Fin : In f (fwd s)) by (eapply nth_error_In; eauto).
+    destruct (inv_fwd _ _ I f Fin) as [_ [_ FP]]. unfold phase_ok in FP.
+    destruct (f_phase f) as [| |c' mid' e p|] eqn:PH; try (left; exact H).
+    - destruct (right_type (f_i f) (f_ty f)); [|left; exact H].
+      destruct (invoked (f_m f) (negb (Z.eqb (f_mid f) 0))); left; exact H.
+    - destruct FP as [EC [EM _]]. subst c' mid'. rewrite !Z.eqb_refl, !andb_true_r in H.
+      destruct (f_wait f) eqn:W; [|left; exact H].
+      unfold write in H. simpl in H. destruct (Z.eqb (f_mid f) 0); [left; exact H|].
+      destruct (is_open (conns s) (f_c f)); [|left; exact H]. simpl in H.
+      apply in_app_iff in H. destruct H as [H|[H|[]]]; [left; exact H|]. right.
+      exists f, e, p. auto.
+  Qed.
+
+  Lemma exact_deliver ops s k : Inv ops s -> exact_out ops s -> exact_out ops (deliver s k).
+  Proof.
+    intros I X c t m e p H. destruct (deliver_out ops s k _ I H) as [H1|[f [e1 [p1 [F [W [PH E]]]]]]].
+    - apply X. exact H1.
+    - inv E. destruct (inv_fwd _ _ I f F) as [A [_ FP]]. unfold phase_ok in FP. rewrite PH in FP.
+      exists (fverdict f). split; [exact A | apply FP].
+  Qed.
+
+  Lemma exact_delivers ops ks : forall s,
+    NoDup (map r_tag (ledger ops)) -> Inv ops s -> exact_out ops s -> exact_out ops (fold_left deliver ks s).
+  Proof.
+    induction ks as [|k r IH]; intros s ND I X; simpl; [exact X|].
+    apply IH; [exact ND | apply inv_deliver; assumption | apply exact_deliver; assumption].
+  Qed.
+
+  Lemma exact_mono ops o s : exact_out ops s -> exact_out (ops ++ [o]) s.
+  Proof.
+    intros X c t m e p H. destruct (X _ _ _ _ _ H) as [v [A B]]. exists v. split; [|exact B].
+    rewrite ledger_snoc. apply in_app_iff. left. exact A.
+  Qed.
+
+  Lemma exact_advance ops s :
+    Inv ops s -> quiet s = true -> exact_out ops s -> exact_out (ops ++ [OAdvance]) (advance s).
+  Proof.
+    intros I Q X c t m e p H. unfold advance in H. simpl in H. apply in_app_iff in H.
+    destruct H as [H|H]; [apply (exact_mono ops OAdvance s X); exact H|].
+    unfold timeouts in H. apply in_map_iff in H. destruct H as [f [E H]]. apply filter_In in H.
+    destruct H as [F W]. apply andb_true_iff in W. destruct W as [W _]. inv E.
+    destruct (inv_fwd _ _ I f F) as [A [_ FP]]. unfold phase_ok in FP.
+    unfold quiet in Q. rewrite forallb_forall in Q. specialize (Q f F). rewrite W in Q. simpl in Q.
+    exists (fverdict f). split; [rewrite ledger_snoc; apply in_app_iff; left; exact A|].
+    destruct (f_phase f); try discriminate; [apply FP; exact W | congruence].
+  Qed.
+
+  Lemma exact_op ops s o :
+    NoDup (tags_of (ops ++ [o])) -> Inv ops s ->
+    (o = OAdvance -> quiet s = true) -> exact_out ops s -> exact_out (ops ++ [o]) (op_step s o).
+  Proof.
+    intros ND I Q X. assert (CS := inv_conns _ _ I).
+    assert (REQ : forall c mid r tag,
+              (o = OReq c mid r tag \/ (o = ONotify c r tag /\ mid = 0)) ->
+              is_open (cview ops) c = true ->
+              exact_out (ops ++ [o]) (request (mkSt (conn_step (conns s) o) (fwd s) (out s) (hlog s)) c mid r tag)).
+    { intros c mid r tag EO OP.
+      assert (OP' : is_open (conn_step (conns s) o) c = true).
+      { rewrite CS, conn_step_open_other; [exact OP| |]; destruct EO as [E|[E _]]; subst o; intros; discriminate. }
+      assert (VEQ : verdict_of (key_of (conn_step (conns s) o) c) r = verdict_of (key_of (cview ops) c) r).
+      { rewrite CS. apply conn_step_req_key. destruct EO as [E|[E _]]; subst o; tauto. }
+      rewrite request_effect; [|exact OP']. simpl. rewrite VEQ.
+      set (v := verdict_of (key_of (cview ops) c) r).
+      intros c1 t m e p H. simpl in H. apply in_app_iff in H. destruct H as [H|H]; [apply (exact_mono ops o s X); exact H|].
+      exists v. unfold new_out in H.
+      assert (R0 : In (mkRec c mid tag v) (ledger (ops ++ [o]))).
+      { rewrite ledger_snoc. apply in_app_iff. right.
+        destruct EO as [E|[E Z0]]; subst o; simpl; rewrite OP; left; [|subst mid]; reflexivity. }
+      destruct (Z.eqb mid 0); [destruct v; simpl in H; tauto|].
+      destruct (expected v tag) as [[e1 p1]|] eqn:EX; [|destruct v; simpl in H; tauto].
+      assert (H' : (c1, t, Resp m e p) = (c, tag, Resp mid e1 p1)).
+      { destruct v; simpl in H; try tauto; destruct H as [H|[]]; symmetry; exact H. }
+      inv H'. split; [exact R0 | exact EX]. }
+    destruct o as [c b|c mid r tag|c r tag| |c]; unfold Model.op_step.
+    - apply exact_mono. exact X.
+    - destruct (is_open (conns s) c) eqn:O; [|apply exact_mono; exact X].
+      apply REQ; [left; reflexivity | rewrite <- CS; exact O].
+    - destruct (is_open (conns s) c) eqn:O; [|apply exact_mono; exact X].
+      apply REQ; [right; split; reflexivity | rewrite <- CS; exact O].
+    - apply exact_advance; auto.
+    - apply exact_mono. exact X.
+  Qed.
+
+  Theorem exact_run evs :
+    NoDup (tags_of (ops_of evs)) -> calm evs = true -> exact_out (ops_of evs) (run evs).
+  Proof.
+    induction evs as [|e l IH] using rev_ind; intros ND C; [intros c t m e p []|].
+    unfold calm in C. rewrite calm_from_snoc in C. apply andb_true_iff in C. destruct C as [C1 C2].
+    rewrite run_snoc, ops_of_app. rewrite ops_of_app in ND.
+    destruct e as [o|k]; simpl in *.
+    - assert (ND1 : NoDup (tags_of (ops_of l))) by (rewrite tags_of_app in ND; eapply NoDup_app_l; eauto).
+      apply exact_op; [exact ND | apply inv_run; exact ND1| | apply IH; assumption].
+      intro E. subst o. exact C2.
+    - rewrite app_nil_r in *. apply exact_deliver; [apply inv_run; exact ND | apply IH; assumption].
+  Qed.
+
+  Lemma quiet_after_passes s : quiet (pass (pass s)) = true.
+  Proof.
+    unfold quiet. rewrite !pass_fwd, map_map. apply forallb_forall. intros f F.
+    apply in_map_iff in F. destruct F as [g [E G]]. subst f. rewrite hop_hop_settled. apply orb_true_r.
+  Qed.
+
+  Theorem exact_finish evs :
+    NoDup (tags_of (ops_of evs)) -> calm evs = true ->
+    exact_out (ops_of evs ++ [OAdvance]) (finish (run evs)).
+  Proof.
+    intros ND C. assert (NL := ledger_tags_nodup _ ND). unfold Model.finish.
+    apply exact_advance.
+    - apply inv_pass; [exact NL|]. apply inv_pass; [exact NL|]. apply inv_run. exact ND.
+    - apply quiet_after_passes.
+    - apply exact_delivers; [exact NL | apply inv_pass; [exact NL | apply inv_run; exact ND]|].
+      apply exact_delivers; [exact NL | apply inv_run; exact ND | apply exact_run; assumption].
+  Qed.
+
+  Theorem relayed_unchanged evs pre post c mid r tag c1 m e p :
+    NoDup (tags_of (ops_of evs)) -> calm evs = true ->
+    ops_of evs = pre ++ OReq c mid r tag :: post ->
+    In (c1, tag, Resp m e p) (out (finish (run evs))) ->
+    expected (verdict_of (key_of (cview pre) c) r) tag = Some (e, p).
+  Proof.
+    intros ND C E H.
+    destruct (exact_finish evs ND C _ _ _ _ _ H) as [v1 [R1 X]].
+    assert (ND' : NoDup (tags_of (ops_of evs ++ [OAdvance]))) by (rewrite tags_of_advance; exact ND).
+    assert (E' : ops_of evs ++ [OAdvance] = pre ++ OReq c mid r tag :: (post ++ [OAdvance])).
+    { rewrite E, <- app_assoc. reflexivity. }
+    assert (R1' := tag_rec _ pre _ _ tag _ ND' E' eq_refl R1 eq_refl).
+    simpl in R1'. destruct (is_open (cview pre) c); [|simpl in R1'; tauto].
+    destruct R1' as [R1'|[]]. inv R1'. exact X.
+  Qed.
+
+  (* ---------- nothing is written to a closed connection ---------- *)
+
+  Lemma write_grows s c tag mid e p :
+    exists new, out (write s c tag mid e p) = out s ++ new /\
+                forall x, In x new -> is_open (conns s) (fst (fst x)) = true.
+  Proof.
+    unfold write. destruct (Z.eqb mid 0); [exists []; rewrite app_nil_r; simpl; tauto|].
+    destruct (is_open (conns s) c) eqn:O; [|exists []; rewrite app_nil_r; simpl; tauto].
+    exists [(c, tag, Resp mid e p)]. split; [reflexivity|]. intros x [H|[]]. subst x. exact O.
+  Qed.
+
+  Lemma step_grows s e :
+    exists new, out (step s e) = out s ++ new /\
+                forall x, In x new -> is_open (conns s) (fst (fst x)) = true.
+  Proof.
+    assert (NIL : exists new, out s = out s ++ new /\ forall x, In x new -> is_open (conns s) (fst (fst x)) = true).
+    { exists []. rewrite app_nil_r. simpl. tauto. }
+    assert (REQ : forall o c mid r tag,
+              is_open (conns s) c = true -> is_open (conn_step (conns s) o) c = true ->
+              exists new, out (request (mkSt (conn_step (conns s) o) (fwd s) (out s) (hlog s)) c mid r tag) = out s ++ new /\
+                          forall x, In x new -> is_open (conns s) (fst (fst x)) = true).
+    { intros o c mid r tag O O'. rewrite request_effect; [|exact O']. simpl.
+      eexists. split; [reflexivity|]. intros x H. unfold new_out in H.
+      destruct (verdict_of (key_of (conn_step (conns s) o) c) r); simpl in H; try tauto;
+        destruct (Z.eqb mid 0); simpl in H; try tauto.
+      - destruct (completes m); simpl in H; try tauto; destruct H as [H|[]]; subst x; exact O.
+      - destruct H as [H|[]]; subst x; exact O. }
+    destruct e as [o|k]; simpl.
+    - destruct o as [c b|c mid r tag|c r tag| |c]; unfold Model.op_step; try exact NIL.
+      + destruct (is_open (conns s) c) eqn:O; [|exact NIL]. apply REQ; [exact O|].
+        apply conn_step_open_keep; [exact O | discriminate].
+      + destruct (is_open (conns s) c) eqn:O; [|exact NIL]. apply REQ; [exact O|].
+        apply conn_step_open_keep; [exact O | discriminate].
+      + eexists. split; [reflexivity|]. intros x H. unfold timeouts in H. apply in_map_iff in H.
+        destruct H as [f [E H]]. apply filter_In in H. destruct H as [_ H]. apply andb_true_iff in H.
+        subst x. simpl. tauto.
+    - unfold Model.deliver. destruct (nth_error (fwd s) k) as [f|]; [|exact NIL].
+      destruct (f_phase f) as [| |c' mid' e p|]; try exact NIL.
+      + destruct (right_type (f_i f) (f_ty f)); [|exact NIL].
+        destruct (invoked (f_m f) (negb (Z.eqb (f_mid f) 0))); exact NIL.
+      + destruct (f_wait f && Z.eqb c' (f_c f) && Z.eqb mid' (f_mid f)); [|exact NIL].
+        apply (write_grows (mkSt (conns s) (set_nth k (with_phase f PDone false) (fwd s)) (out s) (hlog s))).
+  Qed.
+
+  Lemma step_closed s e c : is_closed (conns s) c = true -> is_closed (conns (step s e)) c = true.
+  Proof.
+    intro H. destruct e as [o|k]; simpl.
+    - assert (G : is_closed (conn_step (conns s) o) c = true) by (apply conn_step_closed; exact H).
+      destruct o as [d b|d mid r tag|d r tag| |d]; unfold Model.op_step; try exact G; try exact H.
+      + destruct (is_open (conns s) d) eqn:O; [|exact H]. rewrite request_effect; [exact G|].
+        apply conn_step_open_keep; [exact O | discriminate].
+      + destruct (is_open (conns s) d) eqn:O; [|exact H]. rewrite request_effect; [exact G|].
+        apply conn_step_open_keep; [exact O | discriminate].
+    - unfold Model.deliver. destruct (nth_error (fwd s) k) as [f|]; [|exact H].
+      destruct (f_phase f) as [| |c' mid' e p|]; try exact H.
+      + destruct (right_type (f_i f) (f_ty f)); [|exact H].
+        destruct (invoked (f_m f) (negb (Z.eqb (f_mid f) 0))); exact H.
+      + destruct (f_wait f && Z.eqb c' (f_c f) && Z.eqb mid' (f_mid f)); [|exact H].
+        unfold write. simpl. destruct (Z.eqb (f_mid f) 0); [exact H|].
+        destruct (is_open (conns s) (f_c f)); exact H.
+  Qed.
+
+  Theorem closed_silent more : forall s c,
+    is_closed (conns s) c = true ->
+    responses_of (run_from s more) c = responses_of s c.
+  Proof.
+    induction more as [|e r IH]; intros s c H; [reflexivity|].
+    change (run_from s (e :: r)) with (run_from (step s e) r). rewrite IH; [|apply step_closed; exact H].
+    destruct (step_grows s e) as [new [E N]]. unfold responses_of. rewrite E, filter_app, map_app.
+    assert (Z0 : filter (fun x : Z * Z * resp => Z.eqb (fst (fst x)) c) new = []).
+    { clear E. induction new as [|x l IHl]; [reflexivity|]. simpl.
+      destruct (Z.eqb_spec (fst (fst x)) c) as [EQ|NE].
+      - exfalso. assert (O := N x (or_introl eq_refl)). rewrite EQ in O.
+        apply closed_not_open in H. congruence.
+      - apply IHl. intros y Y. apply N. right. exact Y. }
+    rewrite Z0. simpl. apply app_nil_r.
+  Qed.
+
+  (* ---------- the harness schedule is one of the schedules quantified over ---------- *)
+
+  Notation sync_step := (sync_step rf itype).
+
+  Lemma calm_from_app a : forall s b,
+    calm_from s (a ++ b) = calm_from s a && calm_from (run_from s a) b.
+  Proof.
+    induction a as [|e r IH]; intros s b; simpl; [reflexivity|].
+    rewrite IH, andb_assoc. reflexivity.
+  Qed.
+
+  Lemma run_from_app a b s : run_from s (a ++ b) = run_from (run_from s a) b.
+  Proof. unfold Model.run_from. apply fold_left_app. Qed.
+
+  Lemma delivers_run ks : forall s, fold_left deliver ks s = run_from s (map EDeliver ks).
+  Proof. induction ks as [|k r IH]; intro s; simpl; [reflexivity | apply IH]. Qed.
+
+  Lemma delivers_calm ks : forall s, calm_from s (map EDeliver ks) = true.
+  Proof. induction ks as [|k r IH]; intro s; simpl; [reflexivity | apply IH]. Qed.
+
+  Lemma delivers_ops ks : ops_of (map EDeliver ks) = [].
+  Proof. induction ks as [|k r IH]; simpl; [reflexivity | exact IH]. Qed.
+
+  Theorem sync_is_schedule ops :
+    exists evs, ops_of evs = ops /\ calm evs = true /\
+                fold_left sync_step ops init = run evs /\ quiet (run evs) = true.
+  Proof.
+    induction ops as [|o l IH] using rev_ind.
+    - exists []. repeat split; reflexivity.
+    - destruct IH as [evs [EO [C [ER Q]]]].
+      set (s1 := op_step (run evs) o).
+      set (k1 := seq 0 (length (fwd s1))).
+      set (k2 := seq 0 (length (fwd (pass s1)))).
+      exists (evs ++ [EOp o] ++ map EDeliver k1 ++ map EDeliver k2).
+      assert (R : run (evs ++ [EOp o] ++ map EDeliver k1 ++ map EDeliver k2) = pass (pass s1)).
+      { unfold Model.run. rewrite !run_from_app. fold (run evs). simpl.
+        rewrite <- !delivers_run. reflexivity. }
+      split; [|split; [|split]].
+      + rewrite !ops_of_app, !delivers_ops, EO. simpl. reflexivity.
+      + unfold calm. rewrite !calm_from_app, !delivers_calm. fold (calm evs). rewrite C. simpl.
+        fold (run evs). rewrite !andb_true_r. destruct o; try reflexivity. exact Q.
+      + rewrite fold_left_app, ER, R. reflexivity.
+      + rewrite R. apply quiet_after_passes.
   Qed.
 End Proofs.
